@@ -131,6 +131,19 @@ def blocked (s : State D R) (t : Nat) : Bool := (step s t).isNone
 def deadlocked (n : Nat) (s : State D R) : Bool :=
   (List.range n).any (unfinished s) && (List.range n).all (blocked s)
 
+/-- witness programs (data is irrelevant for lock behaviour: `Unit`). `x.Op(x)` on one wrapper: -/
+def selfProgs : Nat → List (Call Unit Unit)
+  | 0 => [{ recv := 0, operand := some 0, cbs := 1, locked := true, opLocked := true, f := fun _ _ => ((), ()) }]
+  | _ => []
+
+/-- `a.Op(b) ∥ b.Op(a)` on two wrappers; `ra`, `rb` = callback rounds into the operand -/
+def abbaProgs (ra rb : Nat) : Nat → List (Call Unit Unit)
+  | 0 => [{ recv := 0, operand := some 1, cbs := ra, locked := true, opLocked := true, f := fun _ _ => ((), ()) }]
+  | 1 => [{ recv := 1, operand := some 0, cbs := rb, locked := true, opLocked := true, f := fun _ _ => ((), ()) }]
+  | _ => []
+
+def unitInit (progs : Nat → List (Call Unit Unit)) : State Unit Unit := init (fun _ => ()) () progs
+
 /-- sequential replay of a log from data `d`: the data after it -/
 def replay (d : D) : List (Entry D R) → D
   | [] => d
